@@ -76,6 +76,18 @@ int h;
 int main_(int a) { h = ext(a) + ext(a + 1); return h; }
 """),
 ]
+# translation units with relocations in data (pointer initialisers) and in code (calls, globals):
+# a partial link of several of them yields a relocation list that revisits sections
+UNITS = [
+    ("u1", "int x1; int *p1 = &x1; int f2(int); int f1(int a) { return f2(a) + *p1; }"),
+    ("u2", "int x2 = 3; int *p2 = &x2; int f1(int); int f2(int a) { if (a) { return f1(a - 1); } return *p2; }"),
+    ("u3", "extern int x1; int *p3 = &x1; int *q3 = &x1; int f1(int); int f3(int a) { return f1(a) + *p3 + *q3; }"),
+]
+# orders in which a hand-built object's relocation list visits its sections (c = code, d = data,
+# r = rodata): every way to interleave, a section visited three times, three sections
+REL_ORDERS_QUICK = ["cdcd", "dcdc", "cddc", "dccd", "ccdc", "dcdd", "cdcdc", "cdrcdr", "rdcrdc", "crcdcrc"]
+REL_ORDERS_MORE = ["cdcc", "cddd", "ccdd", "ddcc", "cdc", "dcd", "dcdcd", "ddcdd", "rcdcr", "crdcrdcrd", "cdrrdc",
+                   "ccddccdd", "dcrdcr"]
 LAYOUTS = [
     ("pg", "ENTRY(main_)\nMEMORY code LOCATION=0x10000 SIZE=0x10000 { SECTION(code) }\n"
            "MEMORY ram LOCATION=0x20000 SIZE=0x10000 { SECTION(data) }\n"),
@@ -233,6 +245,57 @@ def corpus(ctx):
             out.append(("asm-" + sname, "x86_64", "rel", obj))
         except Exception:
             skipped["compile-failed"] += 1
+    # (d) relocation lists that are not contiguous per section (x86_64: the machine with ELF relocation
+    #     numbers): partial links of 2-3 units, hand-built objects visiting their sections in every
+    #     order, shuffled relocation lists
+    x86 = api.get_arch("x86_64")
+    units = {}
+    for uname, src in UNITS:
+        try:
+            units[uname] = lambda src=src: api.cc(io.StringIO(src), "x86_64")
+            units[uname]()
+        except Exception:
+            skipped["compile-failed"] += 1
+            units.pop(uname, None)
+    combos = [("u1", "u2"), ("u2", "u1"), ("u1", "u2", "u3"), ("u3", "u1", "u2")] + ([("u1", "u3"), ("u3", "u2", "u1")] if thorough else [])
+    for combo in combos:
+        if not all(u in units for u in combo):
+            continue
+        try:
+            linked = L.link([units[u]() for u in combo], partial_link=True)
+        except Exception:
+            skipped["link-failed"] += 1
+            continue
+        out.append(("partial-" + "-".join(combo), "x86_64", "rel", linked))
+    for order in REL_ORDERS_QUICK + (REL_ORDERS_MORE if thorough else []):
+        secs = [{"name": n, "align": 4, "data": [rng.randrange(256) for _ in range(48)]}
+                for n in ("code", "data", "rodata")]
+        syms = [{"id": 1, "name": "g0", "binding": "global", "def": True, "sec": "code", "value": 4, "typ": "func", "size": 8},
+                {"id": 2, "name": "l0", "binding": "local", "def": True, "sec": "data", "value": 8, "typ": "object", "size": 4},
+                {"id": 3, "name": "ext0", "binding": "global", "def": False, "sec": "", "value": 0, "typ": "func", "size": 0},
+                {"id": 4, "name": "l1", "binding": "local", "def": True, "sec": "rodata", "value": 0, "typ": "object", "size": 0}]
+        rels = []
+        for k, ch in enumerate(order):
+            t, add = [("abs64", 0), ("rel32", -4), ("abs32", 0)][k % 3]
+            # the same symbol is referenced from several sections
+            rels.append({"type": t, "sym": [1, 3, 2, 1, 4][k % 5], "sec": {"c": "code", "d": "data", "r": "rodata"}[ch],
+                         "off": 4 * k, "add": add})
+        try:
+            out.append(("order-" + order, "x86_64", "rel",
+                        objgen.mk_object(x86, {"secs": secs, "syms": syms, "rels": rels, "entry": -1})))
+        except Exception:
+            skipped["compile-failed"] += 1
+    for n in range(6 if thorough else 3):
+        cands = [u for u in units]
+        try:
+            if n % 2 == 0:
+                obj = L.link([units[u]() for u in rng.sample(cands, min(len(cands), 2 + n % 3))], partial_link=True)
+            else:
+                obj = units[rng.choice(cands)]()
+            rng.shuffle(obj.relocations)
+            out.append(("shuffled%d" % n, "x86_64", "rel", obj))
+        except Exception:
+            skipped["link-failed"] += 1
     return out, skipped
 
 
@@ -383,7 +446,7 @@ class Engine:
                  "written in the spec and checks Read(Encode(o)) = o, well-formedness, the 'seen' predicates, "
                  "detection of named damages and that no interpreted byte is ignored.  E: every file written by "
                  "write_elf for generated objects (objgen), generated link jobs with generated layouts, compiled C "
-                 "and assembly, for x86_64 / arm / riscv / xtensa / microblaze, relocatable and executable; one file "
+                 "and assembly, partial links of 2-3 units, hand-built objects whose relocation list visits the sections in every order, shuffled relocation lists, for x86_64 / arm / riscv / xtensa / microblaze, relocatable and executable; one file "
                  "per TLC state; distinct = distinct (arch, kind, object)")
         ctx.assume("harness/project_obj.py copies the ObjectFile's data attributes faithfully; the JSON byte list is "
                    "the file write_elf produced")
